@@ -40,7 +40,9 @@ RULE = (
     "second classifier parameterisation and a second apply set made of training instances) x "
     "container at fit {nested, numpy} x container at apply {nested, numpy} x nested column naming "
     "{var_i, dim_i} (only where a nested container occurs) x group {perm: all 24 orderings of "
-    "the 4 apply instances; sub: all 4 singletons + all 6 pairs}. Training panel: 12 instances, "
+    "the 4 apply instances; sub: all 4 singletons + all 6 pairs}; plus a sweep of the integer "
+    "parameter of PAA (2..9), SlidingWindowSegmenter (1..6), IntervalSegmenter, SlopeTransformer "
+    "and TSInterpolator over series of 24 and 17 points. Training panel: 12 instances, "
     "24 time points (MUSE: 16 in the quick tier), 2 interleaved classes, deterministic tagged values, random_state fixed to an "
     "int. The seed also rotates whether y is an ndarray or a pd.Series. A case is non-trivial "
     "when the batch output has at least two distinct rows; distinct = distinct case tuple."
@@ -167,6 +169,8 @@ def _menu(tier):
 
 
 def gen_cases(tier, seed):
+    for c in _sweep_cases(tier, seed):
+        yield c
     fams = [seed % 3, (seed + 1) % 3] if tier == "quick" else [0, 1, 2]
     applysets = ["fresh"] if tier == "quick" else ["fresh", "train"]
     i = 0
@@ -189,9 +193,42 @@ def gen_cases(tier, seed):
                                    yseries=False, uneq=True)
 
 
+PARAM_SWEEP = {"PAA": (2, 3, 4, 6, 7, 9), "SlidingWin": (1, 2, 3, 4, 6), "IntervalSeg": (2, 4, 5),
+               "Slope": (2, 3, 5, 6), "Interp": (7, 30)}
+
+
+def _sweep_cases(tier, seed):
+    """the integer parameter of the parameterised transformers x two series lengths (one of
+    them not a multiple of most parameters)"""
+    i = 0
+    for base, ks in PARAM_SWEEP.items():
+        for k in ks:
+            for Lc in (L, 17):
+                for group in ("sub", "perm"):
+                    for fitc, appc in (("nested", "nested"), ("nested", "numpy"), ("numpy", "numpy")):
+                        i += 1
+                        yield dict(kind="trf", est="%s@%d" % (base, k), cols=1, opt=0,
+                                   fam=(seed + i) % 3, aset="fresh", L=Lc, fitc=fitc, appc=appc,
+                                   naming="var", group=group, rs=0, yseries=False)
+
+
 # --------------------------------------------------------------------------- running
+def _param_transformer(name):
+    """'PAA@7' -> PAA(7): the integer parameter of the parameterised cheap transformers"""
+    from sktime.transformations.panel.dictionary_based import PAA
+    from sktime.transformations.panel.interpolate import TSInterpolator
+    from sktime.transformations.panel.segment import IntervalSegmenter, SlidingWindowSegmenter
+    from sktime.transformations.panel.slope import SlopeTransformer
+
+    base, k = name.split("@")
+    return {"PAA": PAA, "SlidingWin": SlidingWindowSegmenter, "IntervalSeg": IntervalSegmenter,
+            "Slope": SlopeTransformer, "Interp": TSInterpolator}[base](int(k))
+
+
 def _build(case):
     kind, name = case["kind"], case["est"]
+    if kind == "trf" and "@" in name:
+        return _param_transformer(name)
     if kind == "trf":
         return _transformers()[name]()
     if kind == "clf":
